@@ -5,6 +5,7 @@ import (
 	"go/ast"
 	"go/token"
 	"go/types"
+	"regexp"
 	"strings"
 
 	"golang.org/x/tools/go/ssa"
@@ -455,6 +456,49 @@ func r32OneInsertPerFeature(c *core.Ctx) {
 	c.Floor(R, 6)
 }
 
+// typeSwitchAppendsOne: every non-default case of the type switch appends exactly one value (to acc when given, and
+// then by `acc = append(acc, x)` or `return append(acc, x)`), and the default case aborts.  Returns "" or the reason.
+func typeSwitchAppendsOne(p *core.Prog, info *types.Info, ts *ast.TypeSwitchStmt, acc types.Object) string {
+	for _, tc := range ts.Body.List {
+		tcl := tc.(*ast.CaseClause)
+		apps := core.BuiltinCallsIn(info, tcl, "append")
+		if tcl.List == nil {
+			if len(tcl.Body) != 1 || !stmtTerminates(p, info, tcl.Body[0]) {
+				return "the default type case does not abort"
+			}
+			continue
+		}
+		if len(apps) != 1 {
+			return fmt.Sprintf("a value type case appends %d values", len(apps))
+		}
+		if len(apps[0].Args) != 2 || apps[0].Ellipsis.IsValid() {
+			return "a value type case does not append exactly one value"
+		}
+		if acc != nil {
+			if core.ObjOf(info, apps[0].Args[0]) != acc {
+				return "a value type case appends to something other than the column list"
+			}
+			okUse := false
+			for _, s := range tcl.Body {
+				switch x := s.(type) {
+				case *ast.AssignStmt:
+					if len(x.Lhs) == 1 && len(x.Rhs) == 1 && ast.Unparen(x.Rhs[0]) == ast.Expr(apps[0]) && core.ObjOf(info, x.Lhs[0]) == acc {
+						okUse = true
+					}
+				case *ast.ReturnStmt:
+					if len(x.Results) == 1 && ast.Unparen(x.Results[0]) == ast.Expr(apps[0]) {
+						okUse = true
+					}
+				}
+			}
+			if !okUse {
+				return "a value type case drops the appended column list"
+			}
+		}
+	}
+	return ""
+}
+
 // R33: column order agrees between reader and writer.
 func r33ColumnOrder(c *core.Ctx) {
 	const R = "R33"
@@ -491,15 +535,28 @@ func r33ColumnOrder(c *core.Ctx) {
 		c.Check(R, "table-order/"+name, f.Decl.Pos(), ok, "ranges once over t.columns in slice order and appends in that order", "the statement is not built by one in-order pass over t.columns")
 		if name == "gpkg.Table.insertSQL" && loop != nil {
 			// skip predicate: c.name != t.gcolumn guards the appends; the geometry column is appended after the loop
-			skipOK := false
-			for _, s := range loop.Body.List {
-				if is, isIf := s.(*ast.IfStmt); isIf && is.Else == nil {
-					if be, isBE := ast.Unparen(is.Cond).(*ast.BinaryExpr); isBE && be.Op == token.NEQ {
-						l, r := core.FieldOf(info, be.X), core.FieldOf(info, be.Y)
-						if l != nil && r != nil && ((l.Name() == "name" && r.Name() == "gcolumn") || (l.Name() == "gcolumn" && r.Name() == "name")) {
-							skipOK = len(core.BuiltinCallsIn(info, is.Body, "append")) >= 2 && len(loop.Body.List) == 1
-						}
-					}
+			// (as an enclosing `if name != gcolumn` or an earlier `if name == gcolumn { continue }`: in both forms
+			// the only fact that holds at the appends is that the column is not the geometry column)
+			skipOK := true
+			apps := core.BuiltinCallsIn(info, loop.Body, "append")
+			if len(apps) < 2 {
+				skipOK = false
+			}
+			notGeom := regexp.MustCompile(`^(\w+\.name(==|!=)\w+\.gcolumn|\w+\.gcolumn(==|!=)\w+\.name)$`)
+			for _, app := range apps {
+				facts := enclosingFacts(loop.Body, app)
+				if len(facts) != 1 {
+					skipOK = false
+					continue
+				}
+				m := notGeom.FindStringSubmatch(facts[0].expr)
+				if m == nil {
+					skipOK = false
+					continue
+				}
+				op := m[2] + m[3]
+				if (op == "!=") != facts[0].val {
+					skipOK = false
 				}
 			}
 			lastOK := false
@@ -548,24 +605,63 @@ func r33ColumnOrder(c *core.Ctx) {
 			for _, cc := range sw.Body.List {
 				cl := cc.(*ast.CaseClause)
 				if cl.List == nil {
-					// default: a type switch whose every non-default case appends exactly one value to the column slice
+					// default: a type switch whose every non-default case appends exactly one value to the column
+					// slice -- written out here, or in a module helper called as `c = helper(c, …)`
 					for _, s := range cl.Body {
-						ts, isTS := s.(*ast.TypeSwitchStmt)
-						if !isTS {
+						if ts, isTS := s.(*ast.TypeSwitchStmt); isTS {
+							defCase = true
+							if w := typeSwitchAppendsOne(c.P, info, ts, nil); w != "" {
+								defCase, why = false, w
+							}
 							continue
 						}
-						defCase = true
-						for _, tc := range ts.Body.List {
-							tcl := tc.(*ast.CaseClause)
-							napp := len(core.BuiltinCallsIn(info, tcl, "append"))
-							if tcl.List == nil {
-								if len(tcl.Body) != 1 || !stmtTerminates(c.P, info, tcl.Body[0]) {
-									defCase = false
-									why = "the default type case does not abort"
+						as, isAs := s.(*ast.AssignStmt)
+						if !isAs || len(as.Lhs) != 1 || len(as.Rhs) != 1 {
+							continue
+						}
+						call, isCall := ast.Unparen(as.Rhs[0]).(*ast.CallExpr)
+						if !isCall {
+							continue
+						}
+						callee := core.Callee(info, call)
+						if callee == nil {
+							continue
+						}
+						h := c.P.ByObj[callee.Origin()]
+						if h == nil || h.Decl.Body == nil || !core.IsModPath(h.Pkg.PkgPath) {
+							continue
+						}
+						// the accumulator: the argument that is also the assignment's target
+						hs := h.Obj.Type().(*types.Signature)
+						var acc types.Object
+						for i, a := range call.Args {
+							if i < hs.Params().Len() && core.ObjOf(info, a) != nil && core.ObjOf(info, a) == core.ObjOf(info, as.Lhs[0]) {
+								acc = hs.Params().At(i)
+							}
+						}
+						if acc == nil {
+							continue
+						}
+						for _, hsn := range h.Decl.Body.List {
+							if ts, isTS := hsn.(*ast.TypeSwitchStmt); isTS {
+								defCase = true
+								if w := typeSwitchAppendsOne(c.P, h.Pkg.TypesInfo, ts, acc); w != "" {
+									defCase, why = false, w
 								}
-							} else if napp != 1 {
-								defCase = false
-								why = fmt.Sprintf("a value type case appends %d values", napp)
+							}
+						}
+						if defCase {
+							// besides the type switch the helper only returns the accumulator
+							for _, hsn := range h.Decl.Body.List {
+								switch x := hsn.(type) {
+								case *ast.TypeSwitchStmt:
+								case *ast.ReturnStmt:
+									if len(x.Results) != 1 || core.ObjOf(h.Pkg.TypesInfo, x.Results[0]) != acc {
+										defCase, why = false, "the helper does not return the column list it appended to"
+									}
+								default:
+									defCase, why = false, "the helper does more than a type switch and a return"
+								}
 							}
 						}
 					}
